@@ -778,9 +778,39 @@ def replay_modules(vec, sid, base):
                 problems.append({'what': f'after {[(e["op"], e["a"], e["t"], e["n"]) for e in vec["hist"]]}: interface '
                                          f'{row["via"]}[{mat.ref(row["t"], row["n"])}] answered {got or "missing"}, allowed '
                                          f'{allowed} (0 = missing)', 'step': len(vec['hist'])})
+        if not problems:
+            problems += late_module(mat)
     finally:
         mat.close()
     return problems
+
+
+def late_module(mat):
+    """A provider module that becomes importable only AFTER its qualified name was looked up (and missed) once: the miss must
+    not stick - the same reference resolves as soon as the module can be imported (whatever the lookup/import order)."""
+    import forml
+    name = f'{mat.p}_late'
+    ref = f'{name}:Late'
+
+    def lookup():
+        try:
+            got = mat.root[ref]
+        except forml.MissingError:
+            return 'missing'
+        except Exception as exc:  # pylint: disable=broad-except
+            return f'error:{type(exc).__name__}'
+        return f'{got.__module__}:{got.__qualname__}'
+
+    first = lookup()
+    mat._write(os.path.join(mat.dir, f'{name}.py'),
+               f'import {mat.p}_root\n\n\nclass Late({mat.p}_root.Root):\n    def m0(self):\n        return None\n')
+    importlib.invalidate_caches()
+    second = lookup()
+    if first != 'missing':
+        return [{'what': f'lookup of {ref} before its module exists answered {first}', 'step': -1}]
+    if second != ref:
+        return [{'what': f'lookup of {ref} answered {second} although the module became importable after an earlier miss', 'step': -1}]
+    return []
 
 
 def modules_worker(args):
